@@ -89,6 +89,11 @@ def cmp_vals(exact, dbl, strict=False, scale=None):
     res = 'exact'
     for e, d in zip(exact, dbl):
         if e == d: continue
+        # outside the range of doubles: overflow to +-inf, underflow to 0
+        if isinstance(e, F) and d in ('inf', '-inf') and abs(e) >= F(2) ** 1023 and (e > 0) == (d == 'inf'):
+            res = 'rounded'; continue
+        if isinstance(e, F) and isinstance(d, F) and e != 0 and abs(e) < F(1, 2 ** 1000) and abs(d) < F(1, 2 ** 1000):
+            res = 'rounded'; continue
         if strict: return 'differ'
         if close(e, d): res = 'rounded'; continue
         if scale is not None and isinstance(e, F) and isinstance(d, F) and abs(e - d) <= scale * F(1, 10 ** 9):
@@ -171,8 +176,11 @@ def main():
             if 'err:int-div0' in mcomp:
                 cnt('compiled:int-div0-crash'); finding('int-division-by-zero-crash', c, signal=hh['crash'], interpreter=hh.get('value'))
                 continue
-            if 'err:div0' in mcomp:
-                # the model evaluator stops at the first (double) division by zero and cannot see a later int/int one
+            ctext = hh.get('toC') or ''
+            if any(x in mcomp for x in ('err:div0', 'err:opaque', 'err:random', 'err:range')) and \
+               ('/(0)' in ctext or '? 1 : 0)/(' in ctext or '/(1)' in ctext):
+                # the model evaluator stops at the first division by zero / oracle call and cannot see a later
+                # int/int division by zero, which is evident in the emitted text
                 cnt('compiled:crash-after-div0'); finding('crash-after-division-by-zero(model stops earlier)', c, signal=hh['crash'], interpreter=hh.get('value'))
                 continue
         if 'crash' in hh or 'hang' in hh:
